@@ -328,3 +328,28 @@ Theorem einsum_single_den :
       /\ forall o, den_sum V vzero vadd r o = a_at (np_einsum1 V vzero vadd lhs rhs (mkArr (c_shape c) (den c))) o.
 Proof. exact einsum_single_den_proof. Qed.
 Print Assumptions einsum_single_den.
+
+(* ---------------------------------------------------------------------------------------------------------------
+   matmul's batch recursion and kron. *)
+
+(* _matmul_recurser on the dense meaning of the (already rank-aligned) operands: per batch index, a[0] when the
+   extent is 1 else a[i], recursing down to dot on matrices, is np.matmul's batch broadcasting. *)
+Theorem matmul_rec_den :
+  forall (V : Type) (vzero : V) (vadd vmul : V -> V -> V) (n : Z) (sha shb : shape) (a b : idx -> V) (ix : idx),
+    length sha = length shb ->
+    matmul_rec V vzero vadd vmul sha shb n a b ix = np_matmul_batch V vzero vadd vmul sha shb n a b ix.
+Proof. exact matmul_rec_den_proof. Qed.
+Print Assumptions matmul_rec_den.
+
+(* kron of two canonical zero-filled COO arrays with the same number of axes: the coordinates of the result are
+   pairwise distinct (the promise has_duplicates=False) and in range, and the result means np.kron. *)
+Theorem kron_den :
+  forall (V : Type) (vzero : V) (vadd vmul : V -> V -> V), comm_semiring vzero vadd vmul ->
+  forall (a b : coo V), canon V vzero a -> canon V vzero b -> length (c_shape a) = length (c_shape b) ->
+    let r := kron_m V vmul a b in
+    c_shape r = a_shape (np_kron V vmul (mkArr (c_shape a) (den a)) (mkArr (c_shape b) (den b)))
+    /\ NoDup (c_coords r) /\ Forall (in_range (c_shape r)) (c_coords r)
+    /\ forall ix, in_range (c_shape r) ix ->
+         den r ix = a_at (np_kron V vmul (mkArr (c_shape a) (den a)) (mkArr (c_shape b) (den b))) ix.
+Proof. exact kron_den_proof. Qed.
+Print Assumptions kron_den.
